@@ -1,9 +1,9 @@
 (* C12 - Outputs align with the model's times and compartments in a deterministic order.
-   Statements only; proofs in Proofs/BuildProofs.v. *)
+   Statements only; proofs in Proofs/BuildProofs.v and Proofs/ShapeProofs.v. *)
 From Coq Require Import QArith List String Bool.
 Import ListNotations.
-From S2 Require Import Base.Num Base.Arr Model.Expr Model.Struct Model.Rates Model.Program
-     Proofs.BuildProofs Props.Examples.
+From S2 Require Import Base.Num Base.Arr Model.Expr Model.Struct Model.Rates Model.Run Model.Program
+     Proofs.BuildProofs Proofs.ShapeProofs Props.Examples.
 
 (* a stratification replaces each stratified compartment in place by its strata in declaration
    order and leaves the others where they were (stratify_with_inv exposes the model's new
@@ -42,6 +42,32 @@ Proof.
   destruct (wf_flows m (wf_build _ _ _ _ _ _ _ Hb) f Hf) as [He _]. apply He. exact Hc.
 Qed.
 Print Assumptions C12_endpoint_position.
+
+(* the compartment list of every model the API can build is the replay of the recorded stratifications
+   on the original names: its order is a function of the build sequence alone *)
+Theorem C12_compartments_replay :
+  forall t0 t1 h comps inf ops m, build_ok t0 t1 h comps inf ops = Some m ->
+    m_comps m = replay_comps (m_orig m) (m_actions m).
+Proof. exact actions_ok_build. Qed.
+Print Assumptions C12_compartments_replay.
+
+(* the outputs array: one row per model time and one column per compartment, for both fixed-step solvers,
+   every model and parameters; the model times are start + k * timestep *)
+Theorem C12_outputs_shape :
+  forall (O : NumOps) (T : NumTheory O) (m : model) (s : solver) (p pd : env O) rr,
+    m_comps m = replay_comps (m_orig m) (m_actions m) -> m_arraypop m = None -> (1 <= num_times m)%nat ->
+    run_model_gen O m s p pd = Ok rr ->
+    List.length (rr_outputs O rr) = num_times m
+    /\ Forall (fun row => List.length row = List.length (m_comps m)) (rr_outputs O rr).
+Proof. intros O T. exact (outputs_shape O). Qed.
+Print Assumptions C12_outputs_shape.
+
+Theorem C12_times_grid :
+  forall (O : NumOps) (m : model) k, (k < num_times m)%nat ->
+    List.length (times_F O m) = num_times m
+    /\ nth k (times_F O m) (f0 O) = let '(t0, _, h) := m_times m in of_Q O (t0 + inject_Z (Z.of_nat k) * h)%Q.
+Proof. intros O m k Hk. split; [apply times_length | apply times_grid; exact Hk]. Qed.
+Print Assumptions C12_times_grid.
 
 (* non-vacuity: the example model is reachable, has 6 distinct compartments in in-place order *)
 Example C12_nonvacuous :
